@@ -33,6 +33,8 @@ EXPECTED_PLAYER_STEP_REST = (
 )
 
 
+OUTPUTS = ["PacManConsts.v"]
+
 def _z(x):
     x = int(x)
     return str(x) if x >= 0 else "(%d)" % x
